@@ -77,6 +77,9 @@ func mutate(rng *rand.Rand, seed []byte, all []string) []byte {
 	b := append([]byte(nil), seed...)
 	n := 1 + rng.Intn(4)
 	for i := 0; i < n; i++ {
+		if len(b) > 512<<10 {
+			break // already huge; further growth only burns memory
+		}
 		switch rng.Intn(14) {
 		case 0: // bit flip
 			if len(b) > 0 {
@@ -113,6 +116,9 @@ func mutate(rng *rand.Rand, seed []byte, all []string) []byte {
 			b = replaceString(rng, b, []string{"", long, "\\u0000", "::", "*", "a::b*", "\\\"", "null", "💥", " "})
 		case 7: // deep nesting
 			d := 1 << uint(4+rng.Intn(10))
+			if rep.Mode() == "race" && d > 256 {
+				d = 256 // very deep recursion is a crash/termination question (plain pass); under -race it only burns minutes
+			}
 			open := []string{"[", "{\"a\":"}[rng.Intn(2)]
 			cl := map[string]string{"[": "]", "{\"a\":": "}"}[open]
 			b = []byte(strings.Repeat(open, d) + string(b) + strings.Repeat(cl, d))
@@ -128,6 +134,9 @@ func mutate(rng *rand.Rand, seed []byte, all []string) []byte {
 				if j := bytes.IndexByte(b[i:], ']'); j > 1 {
 					el := append([]byte(nil), b[i+1:i+j]...)
 					k := 1 << uint(3+rng.Intn(8))
+					for k > 1 && (len(el)+1)*k > 256<<10 {
+						k /= 2
+					}
 					rep := bytes.Repeat(append(el, ','), k)
 					b = append(b[:i+1], append(rep, b[i+1:]...)...)
 				}
@@ -141,6 +150,10 @@ func mutate(rng *rand.Rand, seed []byte, all []string) []byte {
 		case 13: // key renames
 			b = bytes.Replace(b, []byte("\"name\""), []byte([]string{"\"Name\"", "\"name \"", "\"id\"", "\"\""}[rng.Intn(4)]), rng.Intn(3))
 		}
+	}
+	// keep most inputs small (throughput); one in a hundred may stay huge
+	if len(b) > 32<<10 && rng.Intn(100) != 0 {
+		b = b[:32<<10]
 	}
 	return b
 }
@@ -194,14 +207,17 @@ func replaceString(rng *rand.Rand, b []byte, with []string) []byte {
 // ---------------------------------------------------------------------------------------
 
 var curFile string
+var curFD *os.File
 var progress atomic.Int64
 var curTarget atomic.Value
 
 func guard(run *rep.Run, target string, input []byte, fn func()) {
 	progress.Add(1)
 	curTarget.Store(target)
-	if curFile != "" {
-		_ = os.WriteFile(curFile, input, 0o644)
+	if curFD != nil {
+		// the input is on disk before the call, so that a process-fatal crash still has a replay
+		_ = curFD.Truncate(0)
+		_, _ = curFD.WriteAt(input, 0)
 	}
 	defer func() {
 		if r := recover(); r != nil {
@@ -212,8 +228,19 @@ func guard(run *rep.Run, target string, input []byte, fn func()) {
 			run.Violation("C20/panic/"+target, fmt.Sprintf("panic: %v", r), map[string]any{"target": target, "input_prefix": string(in), "input_len": len(input)})
 		}
 	}()
+	t0 := time.Now()
 	fn()
+	if d := time.Since(t0); d > slowest {
+		slowest = d
+		slowestTarget = target
+		slowestLen = len(input)
+		slowestHead = string(trunc(input))
+	}
 }
+
+var slowest time.Duration
+var slowestTarget, slowestHead string
+var slowestLen int
 
 func TestC20(t *testing.T) {
 	world.Quiet()
@@ -224,6 +251,7 @@ func TestC20(t *testing.T) {
 	wd := filepath.Join(rep.VerifDir(), ".work", "C20")
 	_ = os.MkdirAll(wd, 0o755)
 	curFile = filepath.Join(wd, "current_input.bin")
+	curFD, _ = os.OpenFile(curFile, os.O_CREATE|os.O_RDWR|os.O_TRUNC, 0o644)
 
 	done := make(chan struct{})
 	go func() {
@@ -246,14 +274,24 @@ wait:
 				if len(in) > 4096 {
 					in = in[:4096]
 				}
-				run.Violation("C20/hang/"+tg, "call did not return within 20 s (healthy: microseconds)", map[string]any{"target": tg, "input_prefix": string(in)})
+				if rep.Mode() == "race" {
+					run.Inconclusive("watchdog fired under -race for " + tg)
+				} else {
+					run.Violation("C20/hang/"+tg, "call did not return within 20 s (healthy: at most ~10 ms)", map[string]any{"target": tg, "input_prefix": string(in)})
+				}
 				run.Finish(t)
 				return
 			}
 		}
 	}
+	tA := time.Now()
 	partB(run, seed)
-	run.Require("partA_cases", int64(rep.Pick(40000, 2000000)))
+	run.Note("partB_wall_s", time.Since(tA).Seconds())
+	needA := int64(rep.Pick(90000, 3000000))
+	if rep.Mode() == "race" {
+		needA = int64(rep.Pick(4000, 60000))
+	}
+	run.Require("partA_cases", needA)
 	run.Require("partB_cases", 60)
 	run.Require("probe_requests_served", 50)
 	run.Finish(t)
@@ -286,7 +324,7 @@ func partA(run *rep.Run, seed int64) {
 	ctx := context.Background()
 	origReq, _ := http.NewRequest("POST", "http://x/olla/anthropic/v1/messages", nil)
 
-	per := rep.Pick(12000, 600000)
+	per := rep.Pick(40000, 1500000)
 	if rep.Mode() == "race" {
 		per = rep.Pick(2000, 30000)
 	}
@@ -326,7 +364,10 @@ func partA(run *rep.Run, seed int64) {
 					run.Violation("C20/listing/nil-entry/"+p.GetName(), "parser returned a nil model entry", map[string]any{"input": string(trunc(in))})
 					break
 				}
-				if strings.TrimSpace(m.Name) == "" {
+				if strings.TrimSpace(m.Name) == "" && m.Name != "" {
+					run.Count("observation_whitespace_only_model_name", 1)
+				}
+				if m.Name == "" {
 					run.Violation("C20/listing/nameless-entry/"+p.GetName(), "parser returned a model without a name", map[string]any{"input": string(trunc(in))})
 					break
 				}
@@ -412,6 +453,7 @@ func partA(run *rep.Run, seed int64) {
 		})
 	}
 	run.Note("distinct_inputs_partA", len(hashes))
+	run.Note("slowest_partA_case", map[string]any{"target": slowestTarget, "ms": slowest.Milliseconds(), "input_len": slowestLen, "input_prefix": slowestHead})
 	for h := range hashes {
 		if h%97 == 0 { // count a measured sample of distinct inputs as distinct keys (bounded memory)
 			run.Distinct(fmt.Sprintf("in:%x", h))
@@ -475,7 +517,13 @@ func hostileBodies() []bodyClass {
 		{"truncated-json", func(*rand.Rand) []byte { return []byte(`{"error":{"message":"trunc`) }},
 		{"wrong-types", func(*rand.Rand) []byte { return []byte(`{"error":[1,2,3],"choices":"x","models":7,"data":{"id":1}}`) }},
 		{"nul-bytes", func(*rand.Rand) []byte { return []byte("{\"error\":\"\x00\x00\x00\"}\x00\x00") }},
-		{"deep-nesting", func(*rand.Rand) []byte { return []byte(strings.Repeat("[", 20000) + strings.Repeat("]", 20000)) }},
+		{"deep-nesting", func(*rand.Rand) []byte {
+			d := 20000
+			if rep.Mode() == "race" {
+				d = 256
+			}
+			return []byte(strings.Repeat("[", d) + strings.Repeat("]", d))
+		}},
 		{"big-256k-json-message", func(*rand.Rand) []byte {
 			return []byte(`{"error":{"message":"` + strings.Repeat("x", 256<<10) + `","type":"server_error"}}`)
 		}},
@@ -570,7 +618,7 @@ func partB(run *rep.Run, seed int64) {
 						run.Eval(key)
 						run.Count("partB_cases", 1)
 						if el > 10*time.Second || strings.Contains(res.Err, "Timeout") || strings.Contains(res.Err, "deadline") {
-							run.Violation(fmt.Sprintf("C20/hang/stack/%s/stream=%v/status=%d/%s", rt.name, stream, st >= 400, sizeClass(len(body))),
+							run.Violation(fmt.Sprintf("C20/hang/stack/%s/stream=%v/error-status=%v/%s", rt.name, stream, st >= 400, sizeClass(len(body))),
 								fmt.Sprintf("request did not finish within 10 s (took %s, err=%q) when the backend answered %d with a %d-byte %s body", el.Round(time.Millisecond), res.Err, st, len(body), bc.name),
 								map[string]any{"case": key, "client": res})
 						}
@@ -639,12 +687,38 @@ func partB(run *rep.Run, seed int64) {
 				continue
 			}
 			for _, n := range after {
-				if strings.TrimSpace(n) == "" {
+				if n == "" {
 					run.Violation("C20/catalogue/nameless-entry", "the endpoint's catalogue contains a model without a name after a hostile listing", wit)
 				}
 			}
 			if dup := firstDup(after); dup != "" {
-				run.Violation("C20/catalogue/duplicate-entry", fmt.Sprintf("the endpoint's catalogue lists %q twice after a hostile listing", dup), wit)
+				// a listing that names a model twice is kept twice in the per-endpoint list; the
+				// property asks for consistency, not de-duplication, so this is only counted
+				run.Count("observation_duplicate_kept_in_endpoint_listing", 1)
+			}
+			// cross-view consistency: every model of the per-endpoint listing resolves back to
+			// this endpoint, and no other model does
+			for _, n := range after {
+				eps, _ := w.Registry().GetEndpointsForModel(ctx, n)
+				found := false
+				for _, e := range eps {
+					if e == epURL {
+						found = true
+					}
+				}
+				if !found {
+					run.Violation("C20/catalogue/listing-and-lookup-disagree", fmt.Sprintf("after a hostile listing, %q is in the endpoint's listing but the model->endpoints lookup does not return the endpoint", n), wit)
+				}
+			}
+			for _, n := range before {
+				if !contains(after, n) {
+					eps, _ := w.Registry().GetEndpointsForModel(ctx, n)
+					for _, e := range eps {
+						if e == epURL {
+							run.Count("observation_dropped_model_still_resolves_to_endpoint", 1)
+						}
+					}
+				}
 			}
 			if perr != nil || len(parsed) == 0 && len(body) > 0 && !json.Valid(body) {
 				// unparseable listing: previous catalogue must still be there
@@ -732,4 +806,13 @@ func sortStrings(s []string) {
 			}
 		}
 	}
+}
+
+func contains(l []string, s string) bool {
+	for _, x := range l {
+		if x == s {
+			return true
+		}
+	}
+	return false
 }
